@@ -182,7 +182,7 @@ package types
 
 //@ func (*NodeResourceInfo) GetAvailableResource
 //@   requires wfInfo(n)
-//@   ensures[C07.avail-fresh,C04,C32] result != nil && fresh(result) && result.CPUMap != nil && fresh(result.CPUMap) && result.NUMAMemory != nil && fresh(result.NUMAMemory)
+//@   ensures[C07.avail-fresh,C04,C32] result != nil && fresh(result) && result.CPUMap != nil && fresh(result.CPUMap) && result.NUMAMemory != nil && fresh(result.NUMAMemory) && result.CPUMap != result.NUMAMemory
 //@   ensures[C07.avail-mem,C04,C32]   result.Memory == n.Capacity.Memory - n.Usage.Memory && result.CPU == n.Capacity.CPU - n.Usage.CPU
 //@   ensures[C07.avail-cpu,C04,C32]   forall k string :: result.CPUMap[k] == n.Capacity.CPUMap[k] - n.Usage.CPUMap[k]
 //@   ensures[C07.avail-numa,C04,C32]  forall k string :: result.NUMAMemory[k] == n.Capacity.NUMAMemory[k] - n.Usage.NUMAMemory[k]
